@@ -140,12 +140,13 @@ def split_args(toks):
 
 class Operand:
     """kind: 'imm' | 'state' | 'const'; toks: expression tokens; base: first name in toks"""
-    __slots__ = ('kind', 'toks', 'val', 'text')
+    __slots__ = ('kind', 'toks', 'val', 'text', 'raw')
 
     def __init__(self, kind, toks):
         self.kind, self.toks = kind, toks
         self.val = None   # filled in by Program.resolve()
         self.text = None
+        self.raw = None   # unmasked value of the expression
 
     def __repr__(self):
         return '%s:%r' % (self.kind, self.toks)
@@ -419,7 +420,8 @@ def assemble(lines, argspec=None):
         if ins.op == 'flag':
             continue
         for a in ins.args:
-            a.val = const_eval(a.toks, P.labels, P.word, P.special) & M
+            a.raw = const_eval(a.toks, P.labels, P.word, P.special)
+            a.val = a.raw & M
             names = [t[1] for t in a.toks if t[0] == 'name']
             a.text = names[0] if names else None
     for s in ('state', 'const'):
